@@ -304,30 +304,74 @@ Section Custom.
     rewrite Hi, Hv. cbn [bind]. rewrite Hf. reflexivity.
   Qed.
 
+  (* ---- `as f64` on an integer, computed on Z ---- *)
+  Lemma round53_small z : Z.abs z <= 2 ^ 53 -> round53 z = z.
+  Proof.
+    intros H. unfold round53. destruct (Z.ltb_spec (Z.abs z) (2 ^ 53)) as [Hlt|Hge]; [reflexivity|].
+    assert (Ha : Z.abs z = 2 ^ 53) by lia.
+    destruct (Z.abs_eq_or_opp z) as [E|E]; rewrite E in Ha.
+    - subst z. reflexivity.
+    - assert (z = - 2 ^ 53) by lia. subst z. reflexivity.
+  Qed.
+
+  Lemma round53_nonneg z : 0 <= z -> 0 <= round53 z.
+  Proof.
+    intros H. unfold round53. destruct (Z.ltb (Z.abs z) (2 ^ 53)); [exact H|].
+    apply Z.mul_nonneg_nonneg; [apply Z.sgn_nonneg; exact H|].
+    apply Z.mul_nonneg_nonneg; [|apply Z.pow_nonneg; lia].
+    assert (Hq : 0 <= Z.shiftr (Z.abs z) (Z.log2 (Z.abs z) - 52)) by (apply Z.shiftr_nonneg; lia).
+    destruct (_ || _); lia.
+  Qed.
+
+  (* what is written through a codec is what is read back: floats and booleans exactly; an integer as the
+     code's two casts leave it - rounded to 53 significant bits by `as f64` (ties to even), then saturated to the
+     range of its type by `as i64` / `as u64` - hence exactly for |z| <= 2^53, and the MAX / MIN sentinels survive *)
   Theorem custom_roundtrip sm st name st' :
     (forall x : Q, set_custom_f64 QN sm st name x = Ok st' -> get_custom_f64 QN sm st' name = Ok x)
-    /\ (forall z, i64_min <= z <= i64_max ->
-                  set_custom_i64 QN sm st name z = Ok st' -> get_custom_i64 QN trunc_Q sm st' name = Ok z)
-    /\ (forall z, 0 <= z <= u64_max ->
-                  set_custom_u64 QN sm st name z = Ok st' -> get_custom_u64 QN trunc_Q sm st' name = Ok z)
+    /\ (forall z, set_custom_i64 QN of_int_Q sm st name z = Ok st' ->
+                  get_custom_i64 QN trunc_Q sm st' name = Ok (clamp i64_min i64_max (round53 z)))
+    /\ (forall z, 0 <= z -> set_custom_u64 QN of_int_Q sm st name z = Ok st' ->
+                  get_custom_u64 QN trunc_Q sm st' name = Ok (clamp 0 u64_max (round53 z)))
     /\ (forall b, set_custom_bool QN sm st name b = Ok st' -> get_custom_bool QN sm st' name = Ok b).
   Proof.
     repeat split.
     - intros x H. destruct (custom_inv _ _ _ _ _ _ H) as (ty & un & fm & v & i & Hf & He & Hi & Hl & ->).
       unfold get_custom_f64. rewrite (custom_read _ _ _ ty un fm i v Hf Hi (set_nth_same _ _ _ Hl)). cbn [bind fst snd].
       destruct fm; try discriminate He. injection He as <-. reflexivity.
-    - intros z Hz H. destruct (custom_inv _ _ _ _ _ _ H) as (ty & un & fm & v & i & Hf & He & Hi & Hl & ->).
+    - intros z H. destruct (custom_inv _ _ _ _ _ _ H) as (ty & un & fm & v & i & Hf & He & Hi & Hl & ->).
       unfold get_custom_i64. rewrite (custom_read _ _ _ ty un fm i v Hf Hi (set_nth_same _ _ _ Hl)). cbn [bind fst snd].
-      destruct fm; try discriminate He. injection He as <-. cbn [decode_i64 of_Z QN].
-      rewrite trunc_Q_inject, clamp_id by exact Hz. reflexivity.
+      destruct fm; try discriminate He. injection He as <-. cbn [decode_i64]. unfold of_int_Q.
+      rewrite trunc_Q_inject. reflexivity.
     - intros z Hz H. destruct (custom_inv _ _ _ _ _ _ H) as (ty & un & fm & v & i & Hf & He & Hi & Hl & ->).
       unfold get_custom_u64. rewrite (custom_read _ _ _ ty un fm i v Hf Hi (set_nth_same _ _ _ Hl)). cbn [bind fst snd].
-      destruct fm; try discriminate He. injection He as <-. cbn [decode_u64 of_Z ltb zero QN].
-      assert (Hlt : Qltb (inject_Z z) 0 = false).
-      { unfold Qltb. apply negb_false_iff. apply Qle_bool_iff. change 0%Q with (inject_Z 0). rewrite <- Zle_Qle. lia. }
-      rewrite Hlt, trunc_Q_inject, clamp_id by exact Hz. reflexivity.
+      destruct fm; try discriminate He. injection He as <-. cbn [decode_u64 ltb zero QN]. unfold of_int_Q.
+      assert (Hlt : Qltb (inject_Z (round53 z)) 0 = false).
+      { unfold Qltb. apply negb_false_iff. apply Qle_bool_iff. change 0%Q with (inject_Z 0). rewrite <- Zle_Qle.
+        apply round53_nonneg. exact Hz. }
+      rewrite Hlt, trunc_Q_inject. reflexivity.
     - intros b H. destruct (custom_inv _ _ _ _ _ _ H) as (ty & un & fm & v & i & Hf & He & Hi & Hl & ->).
       unfold get_custom_bool. rewrite (custom_read _ _ _ ty un fm i v Hf Hi (set_nth_same _ _ _ Hl)). cbn [bind fst snd].
       destruct fm; try discriminate He. injection He as <-. destruct b; reflexivity.
   Qed.
+
+  Lemma i64_small z : Z.abs z <= 2 ^ 53 -> clamp i64_min i64_max (round53 z) = z.
+  Proof.
+    intros H. rewrite (round53_small z H). apply clamp_id. unfold i64_min, i64_max.
+    change (2 ^ 53) with 9007199254740992 in H. change (2 ^ 63) with 9223372036854775808. lia.
+  Qed.
+  Lemma u64_small z : 0 <= z <= 2 ^ 53 -> clamp 0 u64_max (round53 z) = z.
+  Proof.
+    intros H. rewrite (round53_small z) by lia. apply clamp_id. unfold u64_max.
+    change (2 ^ 53) with 9007199254740992 in H. change (2 ^ 64) with 18446744073709551616. lia.
+  Qed.
+
+  (* the top and the bottom of the ranges, as the code computes them *)
+  Lemma range_ends :
+    clamp 0 u64_max (round53 u64_max) = u64_max                       (* u64::MAX as f64 = 2^64, 2^64 as u64 = u64::MAX *)
+    /\ clamp i64_min i64_max (round53 i64_max) = i64_max             (* i64::MAX as f64 = 2^63, saturates back *)
+    /\ clamp i64_min i64_max (round53 i64_min) = i64_min
+    /\ round53 (2 ^ 53 + 1) = 2 ^ 53 /\ round53 (2 ^ 53 + 3) = 2 ^ 53 + 4      (* ties to even *)
+    /\ clamp 0 u64_max (round53 (u64_max - 1024)) = u64_max - 2047    (* below the last rounding boundary *)
+    /\ clamp 0 u64_max (round53 (u64_max - 1023)) = u64_max.
+  Proof. repeat split; vm_compute; reflexivity. Qed.
 End Custom.
